@@ -577,6 +577,47 @@ func (bp *boundsProver) indexOK(base, idx ssa.Value) (bool, string) {
 			}
 		}
 	}
+	// sort.Search(n, func(i int) bool { ... base[i] ... }): the standard library calls the predicate with 0 ≤ i < n
+	if ip, ok := strip(idx).(*ssa.Parameter); ok && ip.Parent().Parent() != nil && paramIndex(ip) == 0 {
+		lit := ip.Parent()
+		for _, in := range instrsOf(lit.Parent()) {
+			cl, ok := in.(*ssa.Call)
+			if !ok || !isCallTo(&cl.Call, "sort", "Search") || len(cl.Call.Args) != 2 {
+				continue
+			}
+			mc, ok := strip(cl.Call.Args[1]).(*ssa.MakeClosure)
+			if !ok || mc.Fn != ssa.Value(lit) {
+				continue
+			}
+			n, isLen := lenOperand(strip(cl.Call.Args[0]))
+			if !isLen {
+				continue
+			}
+			// base inside the literal is a captured variable; find the binding
+			b := strip(base)
+			if ld, ok := b.(*ssa.UnOp); ok && ld.Op == token.MUL {
+				b = ld.X
+			}
+			if fv, ok := b.(*ssa.FreeVar); ok {
+				for k, v := range lit.FreeVars {
+					if v != fv || k >= len(mc.Bindings) {
+						continue
+					}
+					bind := mc.Bindings[k]
+					// captured by value (the slice itself) or by reference (its cell, stored once)
+					if sameValue(bind, n) {
+						return true, "index is the argument sort.Search passes to its predicate: 0 ≤ i < len(" + render(n) + ")"
+					}
+					if al, ok := bind.(*ssa.Alloc); ok {
+						sts := storesToCell(al)
+						if nl, ok := strip(n).(*ssa.UnOp); ok && nl.Op == token.MUL && nl.X == ssa.Value(al) && len(sts) == 1 {
+							return true, "index is the argument sort.Search passes to its predicate: 0 ≤ i < len of the captured slice (assigned once)"
+						}
+					}
+				}
+			}
+		}
+	}
 	// parity loop: idx = φ + 1, φ = induction(init c0, stride 2), φ < len(base), (len(base) − c0) % 2 == 0 validated
 	if bo, ok := strip(idx).(*ssa.BinOp); ok && bo.Op == token.ADD {
 		if one, ok := constInt(bo.Y); ok && one == 1 {
